@@ -285,6 +285,13 @@ def gen_item(args):
                                    callee_contracts=sorted(eng.called), fragment=bool(it.fragment), note=it.note)
             if not eng.order:
                 out['undecided'].append(('%s/%s' % (prop, it.name), 'vacuity: zero obligations'))
+            # every function under contract: no default argument is an object built once at definition time (state shared between calls is
+            # outside what a contract over one call can see); decided on the AST
+            shared = shared_defaults(eng.fdef)
+            nshared = z3.Int('defaults_built_once')
+            drec = ObRec('%s/%s/frame[defaults are not shared objects]' % (prop, it.name), 'frame[defaults are not shared objects]', 'defaults', eng.fdef.lineno, idx)
+            drec.queries.append((to_smt2([nshared == len(shared)], nshared == 0), None))
+            out['obs'].append(drec)
             if eng.stale_env:
                 out['undecided'].append(('%s/%s' % (prop, it.name), 'stale contract: env entries never read by the code: %s' % eng.stale_env))
             for nm in eng.order:
@@ -340,6 +347,15 @@ def gen_item(args):
     except CheckerDefect as e:
         out['error'] = 'CHECKER-DEFECT %s' % e
     return out
+
+
+def shared_defaults(fdef):
+    """default argument values that are objects built once, when the function is defined (calls, list / dict / set displays, comprehensions)"""
+    import ast
+    a = fdef.args
+    names = [x.arg for x in a.args][len(a.args) - len(a.defaults):] + [x.arg for x in a.kwonlyargs]
+    return ['%s=%s' % (nm, ast.unparse(d)) for nm, d in zip(names, list(a.defaults) + list(a.kw_defaults))
+            if d is not None and isinstance(d, (ast.Call, ast.List, ast.Dict, ast.Set, ast.ListComp, ast.DictComp, ast.SetComp))]
 
 
 def custom_function_record(repo, it):
